@@ -110,6 +110,15 @@ CLAIMED = {
             "conjugation is handled) complex128 inputs over seeded shapes/options; every floating array or NumPy scalar reachable "
             "from the result must carry the input dtype (singular values of complex input may be real). Sampled.",
             "Documented exemptions only (leverage scores float64, integer outputs, Python floats).", "DESIGN.md §2 C18"),
+    "C17": ("history recording at the API boundary checked step-by-step against an executable non-deterministic reference model; bounded-exhaustive "
+            "operation sequences + random histories + free-running stress with yield injection",
+            "Worker threads execute set_backend / backend_context enter / exit (normal and by exception) / rejected selections one operation "
+            "at a time under a controller; after every operation all threads report the backend they see, its identity and the instance "
+            "that executed a dispatched call; the set of model states consistent with all observations must stay non-empty. All sequences "
+            "up to length 4 (quick) / 5 (thorough) over 2 threads x 2 backends for both managers, random histories over 3 threads x 3 "
+            "backends, cross-manager independence, and stress runs (switch interval 1e-6, sys.monitoring LINE yields) asserting only "
+            "schedule-independent invariants.",
+            "Stub backends (NumpyBackend subclasses named cupy/jax) stand in for uninstalled ones; GIL-atomic bytecodes not interleaved.", "DESIGN.md §2 C17"),
 }
 
 PENDING_REASON = "check not built yet in this session; see DESIGN.md §2 for the planned monitor"
